@@ -509,7 +509,7 @@ fn run_history(w: &W, f: &FileModel, steps: u64, allow_faults: bool, allow_cut: 
 
     let mut step = 0u64;
     loop {
-        if step > 0 && !(if steps > 60 { w.more_p(step, steps, 150, 151) } else if steps > 10 { w.more_p(step, steps, 19, 20) } else { w.more(step, steps) }) {
+        if step > 0 && !(if steps > 300 { w.more_p(step, steps, 1500, 1501) } else if steps > 60 { w.more_p(step, steps, 150, 151) } else if steps > 10 { w.more_p(step, steps, 19, 20) } else { w.more(step, steps) }) {
             break;
         }
         let this_step = step;
@@ -586,7 +586,7 @@ fn run_history(w: &W, f: &FileModel, steps: u64, allow_faults: bool, allow_cut: 
                         // the name as it appears in a line of a list, a header or a .fai row: with a
                         // line terminator, a blank, a tab, a NUL, the '>' of its header, a description
                         let affix = *w.pick(&["x", "\n", "\r\n", "\r", " ", "\t", "\0", "\u{a0}", " desc", "\t1\t2\t3\t4", "\u{feff}", "/1", ":0-1", ":1-1", ":1-2", ":2-3", ":1", ":1-"]);
-                        match w.draw(9) {
+                        match w.draw(10) {
                             0..=4 => format!("{}{}", base, affix),
                             5 => format!(">{}", base),
                             // what other tools do with a name they cannot find: add or drop the "chr"
@@ -595,10 +595,24 @@ fn run_history(w: &W, f: &FileModel, steps: u64, allow_faults: bool, allow_cut: 
                                 Some(rest) if !rest.is_empty() => rest.to_string(),
                                 _ => format!("chr{}", base),
                             },
+                            // aliases and database prefixes other tools try when a name is unknown
+                            8 => match base.as_str() {
+                                "MT" => "chrM".to_string(),
+                                "chrM" => "MT".to_string(),
+                                "X" => "23".to_string(),
+                                _ => {
+                                    let pre = *w.pick(&["lcl|", "gnl|", "ref|", "gi|", "sp|", "chr", "Chr", "CHR"]);
+                                    match base.strip_prefix(pre) {
+                                        Some(rest) if !rest.is_empty() => rest.to_string(),
+                                        _ => format!("{}{}", pre, base),
+                                    }
+                                }
+                            },
                             7 => match base.rfind(['.', '|']) {
                                 Some(i) if i > 0 => base[..i].to_string(),
                                 _ => format!("{}{}", base, *w.pick(&[".1", "|x", ".fa"])),
                             },
+                            9 => format!("{}{}", affix, base),
                             _ => format!("{}{}", affix, base),
                         }
                     }
@@ -1178,7 +1192,19 @@ fn ix_history(w: &W) -> Verdict {
     w.probe("workload_nonempty");
     let faults = w.chance(3, 4);
     // occasionally a long history on one reader
-    let max_steps = if w.chance(1, 50) { if w.chance(1, 4) { 300 } else { 60 } } else { 10 };
+    let max_steps = if w.chance(1, 50) {
+        match w.draw(12) {
+            // thousands of operations on one reader: counters and totals kept over its life
+            0 => {
+                w.probe("history_of_thousands_of_operations");
+                4000
+            }
+            1..=3 => 300,
+            _ => 60,
+        }
+    } else {
+        10
+    };
     run_history(w, &f, max_steps, faults, true)
 }
 
